@@ -117,6 +117,7 @@ class Ctx(object):
         self.snap = os.path.join(self.scratch, 'snap')
         self.rw = os.path.join(self.scratch, 'rw')
         self.gb = os.path.join(self.scratch, 'gb')
+        self.gen = os.path.join(self.scratch, 'gen')
         os.makedirs(self.gb)
         self.rewrites = []
         self.log_lines = []
@@ -232,7 +233,7 @@ class Ctx(object):
     # ------------------------------------------------------------------
     def incs(self, root):
         return ['-I' + os.path.join(root, 'src'), '-I' + os.path.join(root, 'lib'),
-                '-I' + HDIR, '-I' + os.path.join(VERIF, 'gen')]
+                '-I' + HDIR, '-I' + self.gen]
 
     def compile_gb(self, ob):
         defs = dict(ob.defs)
